@@ -189,6 +189,76 @@ def gen_multivalue_order_scenario(rng, root, idx):
     return [['location', src, [use, len(lines[use - 1])], fn]], [('locs', exp)]
 
 
+def gen_bases_scenario(rng, root, idx):
+    """a class whose base is a multiply-bound name (if/elif/else or try/except switch) whose
+    alternatives all define the same member: go-to-definition of the inherited member on the class and
+    on an instance (the sorted completion list does not show the order of the bases)"""
+    k = rng.randint(2, 4)
+    member = rng.choice(['run', 'open_it', 'read'])
+    lines, defpos = [], []
+    use_try = k == 2 and rng.random() < 0.5
+    if use_try:
+        lines += ['try:', '    class Base(object):', '        def %s(self):' % member]
+        defpos.append((len(lines), 12))
+        lines += ['            return 0', 'except E:', '    class Base(object):', '        def %s(self):' % member]
+        defpos.append((len(lines), 12))
+        lines += ['            return 1']
+    else:
+        for j in range(k):
+            kw = 'if c0:' if j == 0 else ('elif c%d:' % j if j < k - 1 else 'else:')
+            lines += [kw, '    class Base(object):', '        def %s(self):' % member]
+            defpos.append((len(lines), 12))
+            lines += ['            return %d' % j]
+    lines += ['class Derived(Base):', '    def own(self):', '        return 1', 'd = Derived()']
+    fn = os.path.join(root, 'bases%d.py' % idx)
+    reqs, exps = [], []
+    for expr in ('d', 'Derived', 'Derived()'):
+        src = '\n'.join(lines + ['%s.%s' % (expr, member)]) + '\n'
+        reqs.append(['location', src, [len(lines) + 1, len(expr) + 1 + len(member)], fn])
+        exps.append([fn, list(defpos[0])])
+    return reqs, exps
+
+
+def gen_failing_middle_scenario(rng, base, idx):
+    """a request that fails in the middle of a sequence (its buffer assigns an attribute on a name
+    imported from a project module that does not parse), then the earlier requests again: identical
+    requests must be answered identically, on the same Project and on new ones in the same process"""
+    root = os.path.join(base, 'fail%d' % idx)
+    os.makedirs(root)
+    cls = rng.choice(['Account', 'Item', 'Record'])
+    a1, a2 = rng.sample(['owner', 'balance', 'title', 'size'], 2)
+    open(os.path.join(root, 'models.py'), 'w').write(
+        "class %s(object):\n    kind = 'k'\n    def __init__(self, x):\n        self.%s = x\n        self.%s = 0\n"
+        "    def deposit(self, n):\n        self.%s = self.%s + n\n" % (cls, a1, a2, a2, a2))
+    open(os.path.join(root, 'conf.py'), 'w').write('class Settings(object):\n    DEBUG = False\nsettings = Settings(\n')
+    fn = os.path.join(root, 'main.py')
+    good = 'from models import %s\nacc = %s(1)\nacc.\n' % (cls, cls)
+    good2 = 'from models import %s\nacc = %s(1)\nacc.%s\n' % (cls, cls, a2)
+    failing = ('from conf import settings\nfrom models import %s\nsettings.DEBUG = True\nclass Savings(%s):\n'
+               '    def __init__(self, x):\n        %s.__init__(self, x)\n        self.rate = 1\nacc = Savings(1)\nacc.\n' % (cls, cls, cls))
+    reqs = [['assist', good, [3, 4], fn], ['location', good2, [3, 4 + len(a2)], fn],
+            ['assist', failing, [9, 4], fn],
+            ['assist', good, [3, 4], fn], ['location', good2, [3, 4 + len(a2)], fn]]
+    return [root], reqs, [None] * 5, [[0, 1, 2, 0, 1], [2, 0, 1], [0, 2, 0]]
+
+
+def gen_instance_class_scenario(rng, base, idx):
+    """class of a cached project module with attributes assigned through self: a request about an
+    instance, then about the class, on one Project vs a fresh one"""
+    root = os.path.join(base, 'ic%d' % idx)
+    os.makedirs(root)
+    cls = rng.choice(['Square', 'Shape', 'Cell'])
+    a1, a2 = rng.sample(['side', 'color', 'area_', 'label'], 2)
+    open(os.path.join(root, 'shapes.py'), 'w').write(
+        'class %s(object):\n    sides = 4\n    def __init__(self):\n        self.%s = 1\n    def paint(self):\n        self.%s = 2\n' % (cls, a1, a2))
+    fn = os.path.join(root, 'main.py')
+    reqs = [['assist', 'import shapes\nshapes.%s.\n' % cls, [2, 8 + len(cls)], fn],
+            ['assist', 'import shapes\nshapes.%s().\n' % cls, [2, 10 + len(cls)], fn],
+            ['location', 'import shapes\nshapes.%s.%s\n' % (cls, a1), [2, 8 + len(cls) + len(a1)], fn],
+            ['location', 'import shapes\nshapes.%s().%s\n' % (cls, a2), [2, 10 + len(cls) + len(a2)], fn]]
+    return [root], reqs, [None] * 4, [[1, 0], [0, 1, 0], [3, 2], [1, 2, 0], [3, 0, 1]]
+
+
 def gen_attr_scenario(rng, root, idx):
     """A name bound in several branches to DIFFERENT objects sharing an attribute, reached
     (a) directly, (b) through function results, (c) through self.x assigned in several methods
@@ -306,6 +376,19 @@ def project_scenarios(ctx, nproc):
         jobs.append({'roots': roots, 'requests': reqs})
         meta.append(('roots', exps))
         ctx.histogram('scenario', 'roots')
+    for i in range(ctx.pick(12, 120)):
+        root = os.path.join(base, 'bases%d' % i)
+        os.makedirs(root)
+        reqs, exps = gen_bases_scenario(ctx.rng, root, i)
+        jobs.append({'roots': [root], 'requests': reqs})
+        meta.append(('bases', exps))
+        ctx.histogram('scenario', 'bases')
+    for name, gen in (('failing-middle', gen_failing_middle_scenario), ('instance-class', gen_instance_class_scenario)):
+        for i in range(ctx.pick(4, 40)):
+            roots, reqs, exps, shared = gen(ctx.rng, base, i)
+            jobs.append({'roots': roots, 'requests': reqs, 'shared': shared})
+            meta.append((name, exps))
+            ctx.histogram('scenario', name)
     for i in range(ctx.pick(6, 60)):
         roots, reqs, exps = gen_case_scenario(ctx.rng, base, i)
         jobs.append({'roots': roots, 'requests': reqs})
@@ -352,6 +435,13 @@ def project_scenarios(ctx, nproc):
             for (rk, _s, _p, _f) in job['requests']:
                 fresh_by_req.append(res[ri0])
                 ri0 += 2 if rk == 'location' else 1
+            seen_req = {}
+            for i, rq in enumerate(job['requests']):
+                key = json.dumps(rq)
+                if key in seen_req and fresh_by_req[seen_req[key]] != fresh_by_req[i]:
+                    what = ('identical requests answered differently in one process (new Project each): %s, later %s'
+                            % (str(fresh_by_req[seen_req[key]])[:120], str(fresh_by_req[i])[:120]))
+                seen_req.setdefault(key, i)
             for seq, row in zip(job.get('shared', []), results[0][j]['shared']):
                 for pos, (i, a) in enumerate(zip(seq, row)):
                     if a != fresh_by_req[i]:
